@@ -17,6 +17,8 @@ CONSTANTS
   CachePutFails = TRUE
   CrashInCreate = TRUE
   IssuerEntries = {}
+  MaxTampers = 0
+  VerifyEdge = TRUE
   Stops = TRUE
 INVARIANTS PoolBound StoppedIsQuiet AckPublished AckInLock LeafCount LockAppendOnly
 PROPERTIES OutcomeIsFinal LockStepExtends
